@@ -114,6 +114,15 @@ def main(argv):
                     semfails.append({"kind": "crash", "case": c.describe(), "assembleConstants": True, "avm": r2[1], "denote": "TEAL expected"})
             ck.sample({"recipe": repr(c.recipe)[:400], "version": c.version, "mode": "app" if c.app else "sig", "teal_lines": len(c.real[1].split("\n"))}, limit=5)
 
+    # 0. glue around the modelled core: field / state accessor wrappers, judged by their NAMES (see c01_glue.py)
+    import c01_glue
+    gn, gproblems = c01_glue.check(pt)
+    ck.coverage["accessor_wrappers_checked"] = gn
+    for i in range(gn):
+        ck.count(("glue", i))
+    for gp in gproblems[:5]:
+        semfails.append({"kind": "accessor", "case": gp, "avm": gp[:300], "denote": "the field / operands the accessor's name and signature promise"})
+
     # 1. exhaustive small shapes x versions x modes
     smalls = small_recipes()
     versions = list(range(2, 11))
